@@ -198,7 +198,15 @@ class ResponseHandler(BaseProtocol, DataQueue[tuple[RawResponseMessage, StreamRe
     def resume_reading(self, resume_parser: bool = True) -> None:
         was_paused = self._reading_paused
         super().resume_reading(resume_parser)
-        if was_paused:
+        # Resuming re-feeds buffered input to the parser, which may pause reading
+        # again or complete the body: re-arm the read timeout only if we are
+        # really waiting for the peer now.
+        if (
+            was_paused
+            and not self._reading_paused
+            and self._payload is not None
+            and not self._payload.is_eof()
+        ):
             self._reschedule_timeout()
 
     def set_exception(
